@@ -107,7 +107,7 @@ def deleteU (H : Bytes → Bytes) (hasDb : Bool) (s : Store) : Nat → WN → Li
           | n' => { node := .short sk h n' true tc, change := r.change, td := r.td }
     | .routing h ch w d tc =>
       match key with
-      | [] => { node := .routing h ch w d tc, err := some .panic }
+      | [] => { node := .routing h ch w d tc, err := some .notFound }   -- a branch below the full key depth (round-4 fix)
       | k :: ks =>
         let r := deleteU H hasDb s fuel (ch k) ks
         match r.err with
